@@ -82,7 +82,8 @@ def binary_round(ck, rng, model, helper, stats):
     sb = mdrun.Sandbox()
     src = sb.maildir('src'); dst = sb.maildir('dst')
     hout = os.path.join(sb.root, 'helper-out'); os.makedirs(hout)
-    kind = rng.choice(['body', 'attachment body', 'attachment body', 'attachment header', 'block', 'block', 'exec body'])
+    kind = rng.choice(['body', 'attachment body', 'attachment body', 'attachment header', 'block', 'block', 'exec body', 'exec body'])
+    rewritten = False
     pat = rng.choice([b'needle', b'^plain text$', b'html', b'caf', b'x=y'])
     hpat = rng.choice([b'text.plain', b'html', b'multipart', b'^text.plain$', b'octet'])
     msgs = []
@@ -109,6 +110,10 @@ def binary_round(ck, rng, model, helper, stats):
         rule = b'match all attachment {\n\t\tmatch header "Content-Type" /%s/ exec stdin body "%s"\n\t}' % (hpat, helper.encode())
     else:
         rule = b'match all exec stdin body "%s"' % helper.encode()
+        if rng.randrange(2):
+            # the body is piped after the message was rewritten by an earlier action of the same rule (another file, another header length)
+            rewritten = True
+            rule = b'match all add-header "X-C11-Rather-Long-Field-Name" "a value of some length" exec stdin body "%s"' % helper.encode()
     conf = sb.write_conf(b'maildir "%s" {\n\t%s\n}\n' % (src.encode(), rule))
     rc, out, err = sb.run([], conf=conf, env={'VERIF_HELPER_OUT': hout})
     cfg = open(conf, 'rb').read().decode(errors='replace')
@@ -118,8 +123,11 @@ def binary_round(ck, rng, model, helper, stats):
         if m:
             moved.add(int(m.group(1)))
     calls = common.helper_calls(hout)
-    reqs = ['msg %s %s %s' % (hexs(text), hexs(b'm'), 'B' if kind in ('body', 'exec body') else 'A') for i, text in msgs]
+    reqs = ['msg %s %s %s' % (hexs(text), hexs(b'm'), ('S%s:%s W B' % (hexs(b'X-C11-Rather-Long-Field-Name'), hexs(b'a value of some length')) if rewritten else 'B')
+                                 if kind in ('body', 'exec body') else 'A') for i, text in msgs]
     got, _ = common.run_lines(model, reqs)
+    if rewritten:
+        got = [g.split(' ')[-1] for g in got]
     anyerr = False
     for (i, text), g in zip(msgs, got):
         stats['binary'] += 1
